@@ -1059,6 +1059,7 @@ func c18StopScenario(sc c18Scenario, rng *Rng, rep *c18Report) {
 	deadline := sc.deadline()
 	if sc.Kind == "llmnr" {
 		c18CloseBeforeServe(rep)
+		c18CloseDuringListenAndServe(rng, rep)
 	}
 	for p := 0; p < points && time.Now().Before(deadline); p++ {
 		base := runtime.NumGoroutine()
@@ -1321,6 +1322,42 @@ func c18CloseBeforeServe(rep *c18Report) {
 	}
 	if n, frames := goroutinesSettle(base, 10*time.Second); n > base {
 		rep.violate("llmnr: close-before-serve left %d goroutines (was %d): %s", n, base, frames)
+	}
+}
+
+// Close while ListenAndServe is still starting (binding the multicast socket, storing it, entering Serve): a shutdown that
+// races the start-up goroutine, at every offset from "before the socket exists" to "already serving".  ListenAndServe must
+// return promptly each time; the race detector of the child judges the accesses to the server's fields.
+func c18CloseDuringListenAndServe(rng *Rng, rep *c18Report) {
+	for i := 0; i < 24; i++ {
+		base := runtime.NumGoroutine()
+		s, err := llmnr.NewIPv4ServerWithHandlers([]llmnr.Handler{llmnr.HandlerFunc(c18LLMNRHandler)})
+		if err != nil {
+			rep.Notes = append(rep.Notes, "cannot create LLMNR server: "+err.Error())
+			return
+		}
+		done := make(chan error, 1)
+		go func() { done <- s.ListenAndServe() }()
+		time.Sleep(time.Duration(rng.Intn(400)) * time.Microsecond)
+		s.Close()
+		select {
+		case err := <-done:
+			if err != nil && i == 0 {
+				rep.Notes = append(rep.Notes, "ListenAndServe: "+err.Error()) // no multicast here: nothing to judge
+				return
+			}
+		case <-time.After(5 * time.Second):
+			rep.violate("llmnr: Close() called %d times during start-up: ListenAndServe did not return within 5s", i+1)
+			if s.Conn != nil {
+				s.Conn.Close()
+			}
+			return
+		}
+		rep.Stats["stop_points"]++
+		if n, frames := goroutinesSettle(base, 10*time.Second); n > base {
+			rep.violate("llmnr: Close during ListenAndServe left %d goroutines (was %d): %s", n, base, frames)
+			return
+		}
 	}
 }
 
